@@ -366,7 +366,7 @@ class SimNetwork:
         delays = []
         if fair:
             delays = [base]
-        elif any(a <= self.k.now < b for a, b in cfg["blackouts"]):
+        elif any(b[0] <= self.k.now < b[1] and (len(b) < 3 or b[2] == ep.name) for b in cfg["blackouts"]):
             fate = "blackout"
         else:
             idx = self.ch.weighted(cfg["fate_weights"])
@@ -534,6 +534,11 @@ class TransportSim:
             start = cfg["t_adv"] * c.choose(8) / 8.0
             dur = min(0.05 + 3.0 * c.choose(8) / 8.0, cfg["t_adv"] - start)
             cfg["blackouts"].append((start, start + dur))
+        # a one-way or two-way blackout that starts the moment the server accepts the connection (its whole
+        # first flight and the retransmissions are lost while the client's first Initial got through)
+        cfg["blackout_on_accept"] = None
+        if "blackout" in on and p.get("blackout_on_accept_p") and c.chance(p["blackout_on_accept_p"]):
+            cfg["blackout_on_accept"] = (0.2 + 4.0 * c.choose(8) / 8.0, (None, "server")[c.choose(2)])
         cfg["rebinds"] = []
         if "rebind" in on:
             for _ in range(c.geometric(p.get("max_rebinds", 3), p.get("rebind_mean", 0.7))):
@@ -620,6 +625,14 @@ class TransportSim:
         cfg["client_max_stream_data"] = limit()
         cfg["server_max_data"] = limit()
         cfg["server_max_stream_data"] = limit()
+        # the three per-stream-type initial windows (bidi_local, bidi_remote, uni): aioquic's configuration has
+        # one knob for all three; a peer may advertise three different values, produced by setting the
+        # RECEIVING side's values right after construction, only when the profile asks for it
+        for side in ("client", "server"):
+            cfg[side + "_stream_data_split"] = None
+            if p.get("split_stream_limits") and c.chance(p["split_stream_limits"]):
+                vals = p["limit_values"]
+                cfg[side + "_stream_data_split"] = tuple(vals[c.choose(len(vals))] for _ in range(3))
         # stream-count limits advertised by each side: aioquic hard-codes 128; a smaller value is
         # set on the RECEIVING side's limit objects right after construction (equivalent to a
         # peer that advertises less), only when the profile asks for it
@@ -791,9 +804,30 @@ class TransportSim:
             c = ep.conn
             c._local_max_streams_bidi.value = c._local_max_streams_bidi.sent = bidi
             c._local_max_streams_uni.value = c._local_max_streams_uni.sent = uni
+        split = self.cfg.get(side + "_stream_data_split")
+        if split:
+            c = ep.conn
+            c._local_max_stream_data_bidi_local, c._local_max_stream_data_bidi_remote, c._local_max_stream_data_uni = split
+        boa = self.cfg.get("blackout_on_accept")
+        if boa and not ep.is_client and self.k.now < self.cfg["t_fair"]:
+            end = min(self.k.now + boa[0], self.cfg["t_fair"])
+            self.cfg["blackouts"].append((self.k.now, end) if boa[1] is None else (self.k.now, end, boa[1]))
+            self.cfg["blackout_on_accept"] = None
         hook = self.profile.get("post_create")
         if hook:
             hook(self, ep)
+
+    def peer_stream_data_limit(self, ep, sid):
+        """initial per-stream window the PEER of ep grants for ep's sending on stream sid"""
+        side = "server" if ep.is_client else "client"
+        split = self.cfg.get(side + "_stream_data_split")
+        if not split:
+            return self.cfg[side + "_max_stream_data"]
+        if sid & 2:
+            return split[2]
+        mine = ((sid & 1) == 0) == ep.is_client
+        # a stream ep opened is, for the peer, remotely initiated: its bidi_remote value applies
+        return split[1] if mine else split[0]
 
     def peer_stream_limit(self, ep, uni):
         """stream-count limit the PEER of ep advertises initially"""
@@ -897,10 +931,10 @@ class TransportSim:
         if ep.stalled_until is not None and self.k.now < ep.stalled_until:
             self.ops_skipped += 1
             return
-        if not ep.is_client and not ep.handshake_complete:
+        custom = self.profile.get("custom_ops", {}).get(kind)
+        if not ep.is_client and not ep.handshake_complete and not (custom is not None and kind == "close"):
             self.ops_skipped += 1
             return
-        custom = self.profile.get("custom_ops", {}).get(kind)
         if custom is not None:
             custom(self, ep, target, size, fin)
             return
